@@ -110,11 +110,57 @@ class CtxFlow:
         for n in ast.walk(node):
             if isinstance(n, (ast.Await, ast.Yield, ast.YieldFrom)):
                 return UNKNOWN
+        if '__flavor__' in local and any(isinstance(n, ast.Attribute) and n.attr == 'flavor' for n in ast.walk(node)):
+            class _F(ast.NodeTransformer):
+                def visit_Attribute(self, n):
+                    if n.attr == 'flavor':
+                        return ast.copy_location(ast.Name(id='__flavor__', ctx=ast.Load()), n)
+                    return self.generic_visit(n)
+            import copy
+            node = ast.fix_missing_locations(_F().visit(copy.deepcopy(node)))
         env = Env(self.ns, dict(local))
         try:
             return self.interp.eval(node, env)
         except (NameError, Unsupported, AttributeError, TypeError, KeyError):
             return UNKNOWN
+
+    def _table_targets(self, e):
+        """A call through a module-level dispatch table (`T[key](..)` / `T.get(key)(..)`, every value of T a routine of the
+        grammar): any of the routines may be the one called."""
+        call = e.node
+        if isinstance(call, ast.Await):
+            call = call.value
+        if not isinstance(call, ast.Call):
+            return []
+        f = call.func
+        table = None
+        lit = f.value if isinstance(f, ast.Subscript) else f.func.value if (
+            isinstance(f, ast.Call) and isinstance(f.func, ast.Attribute) and f.func.attr == 'get') else None
+        if isinstance(lit, ast.Dict) and lit.values:
+            names = [v.id if isinstance(v, ast.Name) else None for v in lit.values]
+            return names if all(n in self.funcs for n in names) else []
+        if isinstance(f, ast.Subscript) and isinstance(f.value, ast.Name):
+            table = f.value.id
+        elif isinstance(f, ast.Call) and isinstance(f.func, ast.Attribute) and f.func.attr == 'get' and isinstance(f.func.value, ast.Name):
+            table = f.func.value.id
+        val = self.ns.get(table) if table else None
+        if not isinstance(val, dict) or not val:
+            return []
+        names = [getattr(v, '__name__', None) for v in val.values()]
+        if all(n in self.funcs for n in names):
+            return names
+        return []
+
+    def dedicated(self, fname, construct, tok):
+        """fname builds `construct` on some path and no path of it tests the construct's keyword."""
+        builds = tests = False
+        for p in self.paths[fname]:
+            for e in p.events:
+                if e.kind == 'call' and e.func == construct:
+                    builds = True
+                if e.kind == 'cond' and re.search(r'Exact\(\w+\.%s\)' % tok, e.text):
+                    tests = True
+        return builds and not tests
 
     def summarize(self, fname, ctx):
         """For function fname entered with ctx (None if it has no ctx parameter): list of feasible
@@ -127,67 +173,82 @@ class CtxFlow:
         out = []
         tracked = {'ctx'}
         for p in self.paths[fname]:
-            local = {}
-            if ctx is not None:
-                local['ctx'] = ctx
-            feasible = True
-            edges, constructs, raises, tokens, freeconds, idents = [], [], [], set(), [], []
-            derived = set(['ctx']) if ctx is not None else set()
-            for e in p.events:
-                if e.kind == 'assign' and isinstance(e.value, ast.expr) and re.fullmatch(r'\w+', e.target or ''):
-                    if e.text in ('for-target', 'match-bind'):
-                        local.pop(e.target, None)
-                        derived.discard(e.target)
-                        continue
-                    v = self._try_eval(e.value, local)
-                    if v is UNKNOWN:
-                        local.pop(e.target, None)
-                        derived.discard(e.target)
-                    else:
-                        local[e.target] = v
-                        if self._mentions(e.value, derived) or True:
-                            derived.add(e.target)
-                elif e.kind == 'cond':
-                    node = e.node
-                    m = re.search(r'Exact\((\w+)\.(\w+)\)', e.text)
-                    if m and e.truth:
-                        tokens.add(m.group(2))
-                    if self._mentions(node, {'ctx', 'new_ctx'}) or (self._mentions(node, derived - {'ctx'})
-                                                                    and not any(isinstance(n, ast.Await) for n in ast.walk(node))):
-                        v = self._try_eval(node, local)
-                        if v is UNKNOWN:
-                            if self._mentions(node, {'ctx', 'new_ctx'}):
-                                raise AnalysisError(f'{fname}: cannot evaluate context condition `{e.text}`')
-                            freeconds.append((e.text, e.truth))
+            # a context computed from the flavour of a name that is only known at parse time (`f(name.token.flavor)`
+            # in an assignment or an argument): one pass per flavour, recorded like a decided flavour comparison
+            splits = [None]
+            if any(e.kind in ('assign', 'call') and any(
+                    isinstance(n, ast.Attribute) and n.attr == 'flavor'
+                    for part in ([e.value] if e.kind == 'assign' and isinstance(e.value, ast.AST) else list(e.args or []))
+                    for n in ast.walk(part)) for e in p.events):
+                splits = list(self.Flavor)
+            for flavour in splits:
+                local = {}
+                if flavour is not None:
+                    local['__flavor__'] = flavour
+                if ctx is not None:
+                    local['ctx'] = ctx
+                feasible = True
+                edges, constructs, raises, tokens, freeconds, idents = [], [], [], set(), [], []
+                derived = set(['ctx']) if ctx is not None else set()
+                for e in p.events:
+                    if e.kind == 'assign' and isinstance(e.value, ast.expr) and re.fullmatch(r'\w+', e.target or ''):
+                        if e.text in ('for-target', 'match-bind'):
+                            local.pop(e.target, None)
+                            derived.discard(e.target)
                             continue
-                        if bool(v) != e.truth:
-                            feasible = False
-                            break
-                    else:
-                        freeconds.append((e.text, e.truth))
-                elif e.kind == 'call':
-                    f = e.func
-                    if f in self.funcs:
-                        cargs = []
-                        for a in e.args:
-                            cargs.append(self._try_eval(a, local))
-                        callee_has_ctx = self.has_ctx(self.funcs[f])
-                        if callee_has_ctx:
-                            if not cargs or cargs[0] is UNKNOWN or not isinstance(cargs[0], int):
-                                raise AnalysisError(f'{fname}: cannot evaluate context argument of {f}({", ".join(e.argtexts)})')
-                            edges.append((f, self.BC(int(cargs[0])), e.bound, e.line, e.argtexts[0]))
+                        v = self._try_eval(e.value, local)
+                        if v is UNKNOWN:
+                            local.pop(e.target, None)
+                            derived.discard(e.target)
                         else:
-                            edges.append((f, None, e.bound, e.line, ''))
-                            if f == 'ps_ident':
-                                idents.append((cargs[0] if cargs else UNKNOWN, e.line, e.argtexts[0] if e.args else ''))
-                    elif f in CONSTRUCTS:
-                        constructs.append((f, e.line, e))
-                    elif f == 'ParserError':
-                        pass
-                elif e.kind == 'raise':
-                    raises.append((e.text, e.line))
-            if feasible:
-                out.append(dict(edges=edges, constructs=constructs, raises=raises, tokens=tokens,
-                                free=freeconds, idents=idents, outcome=p.outcome, events=p.events))
+                            local[e.target] = v
+                            if self._mentions(e.value, derived) or True:
+                                derived.add(e.target)
+                    elif e.kind == 'cond':
+                        node = e.node
+                        m = re.search(r'Exact\((\w+)\.(\w+)\)', e.text)
+                        if m and e.truth:
+                            tokens.add(m.group(2))
+                        if self._mentions(node, {'ctx', 'new_ctx'}) or (self._mentions(node, derived - {'ctx'})
+                                                                        and not any(isinstance(n, ast.Await) for n in ast.walk(node))):
+                            v = self._try_eval(node, local)
+                            if v is UNKNOWN:
+                                if self._mentions(node, {'ctx', 'new_ctx'}):
+                                    raise AnalysisError(f'{fname}: cannot evaluate context condition `{e.text}`')
+                                freeconds.append((e.text, e.truth))
+                                continue
+                            if bool(v) != e.truth:
+                                feasible = False
+                                break
+                        else:
+                            freeconds.append((e.text, e.truth))
+                    elif e.kind == 'call':
+                        f = e.func
+                        targets = [f] if f in self.funcs else self._table_targets(e)
+                        if targets:
+                            cargs = []
+                            for a in e.args:
+                                cargs.append(self._try_eval(a, local))
+                            for f in targets:
+                                callee_has_ctx = self.has_ctx(self.funcs[f])
+                                if callee_has_ctx:
+                                    if not cargs or cargs[0] is UNKNOWN or not isinstance(cargs[0], int):
+                                        raise AnalysisError(f'{fname}: cannot evaluate context argument of {f}({", ".join(e.argtexts)})')
+                                    edges.append((f, self.BC(int(cargs[0])), e.bound, e.line, e.argtexts[0]))
+                                else:
+                                    edges.append((f, None, e.bound, e.line, ''))
+                                    if f == 'ps_ident':
+                                        idents.append((cargs[0] if cargs else UNKNOWN, e.line, e.argtexts[0] if e.args else ''))
+                        elif f in CONSTRUCTS:
+                            constructs.append((f, e.line, e))
+                        elif f == 'ParserError':
+                            pass
+                    elif e.kind == 'raise':
+                        raises.append((e.text, e.line))
+                if feasible:
+                    if flavour is not None:
+                        freeconds = freeconds + [(f'<flavour> == Flavor.{flavour.name}', True)]
+                    out.append(dict(edges=edges, constructs=constructs, raises=raises, tokens=tokens,
+                                    free=freeconds, idents=idents, outcome=p.outcome, events=p.events))
         self._summ[key] = out
         return out
